@@ -1,7 +1,8 @@
 (* Model of protocol/jt1078/jt1078.go: Packet.decodeHead / Packet.Decode.
-   The receiver is an argument because the Go code never resets it: videoFrame is only
-   ever set to true, Timestamp and the interval fields keep their old value when the
-   new packet does not carry them. *)
+   The receiver is an argument because a Packet may be reused for the next packet of a stream.
+   Since fix b666e97 decodeHead clears customAttributes, Timestamp and both interval fields
+   before it reads the new header (the pinned tree kept them: videoFrame was only ever set to
+   true and the old Timestamp / intervals survived); Body is overwritten by Decode itself. *)
 From JT.Base Require Import Prelude.
 
 Definition E1078_SHORT_HEAD : N := 1.
@@ -32,7 +33,7 @@ Definition decode_head (r : pkt) (d : list N) : result (pkt * list N) :=
     if negb (list_eqb [i0; i1; i2; i3] marker) then Err E1078_UNQUALIFIED else
     let dt := N.land (N.shiftr tb 4) 15 in
     let sb := N.land tb 15 in
-    let video := is_video_dt dt || k_video r in               (* sticky on a reused receiver *)
+    let video := is_video_dt dt in                            (* customAttributes cleared first *)
     let e := 18 + (if dt =? DT_PENETRATE then 0 else 8) + (if is_video_dt dt then 4 else 0) in
     if len d <? e then Err E1078_SHORT_HEAD else
     '(tsb, r1) <- (if dt =? DT_PENETRATE then Ok ([], rest) else take 8 rest) ;;
@@ -43,9 +44,9 @@ Definition decode_head (r : pkt) (d : list N) : result (pkt * list N) :=
            k_m := N.land (N.shiftr sign 7) 1; k_pt := N.land sign 127;
            k_seq := be_dec [s0; s1]; k_sim := [m0; m1; m2; m3; m4; m5];
            k_chan := ch; k_dt := dt; k_sub := sb;
-           k_ts := if dt =? DT_PENETRATE then k_ts r else be_dec tsb;
-           k_ifi := if video then be_dec (firstn 2 iv) else k_ifi r;
-           k_fi := if video then be_dec (skipn 2 iv) else k_fi r;
+           k_ts := if dt =? DT_PENETRATE then 0 else be_dec tsb;
+           k_ifi := if video then be_dec (firstn 2 iv) else 0;
+           k_fi := if video then be_dec (skipn 2 iv) else 0;
            k_blen := be_dec lb; k_body := k_body r; k_video := video |}, r3)
   | _ => Err E1078_SHORT_HEAD
   end.
@@ -71,6 +72,20 @@ Fixpoint decode_all (fuel : nat) (d : list N) : result (list pkt) :=
     | S f => '(p, rest) <- decode fresh_pkt d ;; ps <- decode_all f rest ;; Ok (p :: ps)
     end
   end.
+
+(* the same loop with ONE Packet reused for every step (p.Decode(data) in a for loop): the
+   receiver of step k+1 is the packet of step k *)
+Fixpoint decode_all_reuse (fuel : nat) (r : pkt) (d : list N) : result (list pkt) :=
+  match d with
+  | [] => Ok []
+  | _ =>
+    match fuel with
+    | O => Err 99
+    | S f => '(p, rest) <- decode r d ;; ps <- decode_all_reuse f p rest ;; Ok (p :: ps)
+    end
+  end.
+
+Definition decode_stream_reuse (r : pkt) (d : list N) : result (list pkt) := decode_all_reuse (length d) r d.
 
 (* ---------------- the standard's layout (JT/T 1078-2016 table 19), written directly -------- *)
 Definition std_packet (p : pkt) : list N :=
